@@ -25,6 +25,8 @@ reports it with a family computed from the concrete input:
   url-branch-left-escaped     branch name that needs %-escaping comes back escaped
   parent-merge-section        set_parent writes [branch "<name>"] merge, get_parent reads [branch "<remote>"]
   parent-merge-escaped        set_parent stores the still-escaped branch name as merge ref (consequence of F1)
+  non-url-location-drops-ref  git_url_to_bzr_url returns a location that is neither a URL nor rsync-style (a
+                              local path, as stored for a file: parent) early, without the branch/ref (F15)
 A model/implementation difference is *not* recorded as a T2 mismatch only when
 the implementation agrees exactly with the legacy model on that input and the
 input belongs to one of these families; anything else is a mismatch.
@@ -707,13 +709,16 @@ def unhx(x):
     return b"" if x == "-" else bytes.fromhex(x)
 
 
+def is_plain_path(loc):
+    """a location without ':' (not a URL, not rsync-style), e.g. a local path"""
+    return ":" not in loc
+
+
 def oracle_url(ctx, I, loc, branch, ref, out):
     """bzr_url_to_git_url(git_url_to_bzr_url(loc, branch, ref)) designates the same location and ref;
     git_url_to_bzr_url of that triple gives the same URL again"""
     case = dict(kind="url", loc=js(loc), branch=js(branch), ref=jb(ref))
     base = I.urls.git_url_to_bzr_url(loc)
-    if base == loc and "://" not in loc:
-        return  # not a git URL: returned unchanged (excluded family, see RULE)
     if "," in base:
         return  # location already carries segment parameters: correspondence only
     if ref is not None and (ref == b"refs/heads/" or ref.startswith(b"refs/heads/refs/")):
@@ -735,6 +740,9 @@ def oracle_url(ctx, I, loc, branch, ref, out):
         elif url2 == base and r2 is None and b2 is not None and I.urlutils.unescape(b2) != b2 and \
                 eff(I, I.urlutils.unescape(b2), None) == want:
             fam = "url-branch-left-escaped"
+        elif out == loc and is_plain_path(loc):
+            # neither a URL nor rsync-style: returned early, the branch/ref is not recorded at all
+            fam = "non-url-location-drops-ref"
         ctx.violation(case, "git_url_to_bzr_url(%r, branch=%r, ref=%r) = %r; bzr_url_to_git_url of it = %r: "
                       "designates %r, expected (%r, %r)" % (loc, branch, ref, out, t, got, base, want), family=fam)
         return
@@ -746,6 +754,7 @@ def oracle_url(ctx, I, loc, branch, ref, out):
 def sec_urls(ctx, I):
     B = Batch(ctx)
     pending = []
+    g2b_pending = []
 
     def one(loc, branch, ref):
         try:
@@ -755,7 +764,7 @@ def sec_urls(ctx, I):
             ok = False
             out = "E:UnicodeEncode" if isinstance(e, (UnicodeEncodeError, TypeError)) else exc_kind(e)
         case = dict(kind="url", loc=js(loc), branch=js(branch), ref=jb(ref))
-        B.add(case, "g2b %s %s %s" % (cps(loc), ocps(branch), ohx(ref)), cps(out) if ok else out)
+        g2b_pending.append((case, loc, "%s %s %s" % (cps(loc), ocps(branch), ohx(ref)), cps(out) if ok else out))
         ctx.count("g2b:" + ("ok" if ok else out))
         if ok:
             ctx.count("g2b:param:" + ("ref" if ",ref=" in out and out != loc else "branch" if ",branch=" in out and out != loc else "none"))
@@ -800,6 +809,16 @@ def sec_urls(ctx, I):
         one_bzr(base + "".join(ctx.rng.choice(tails) for _ in range(ctx.rng.randint(0, 2))))
     B.flush()
     b2g_flush(ctx, I, pending)
+    rep = ctx.model([x for _, _, a, _ in g2b_pending for x in ("g2b " + a, "g2bL " + a)])
+    for i, (case, loc, a, impl) in enumerate(g2b_pending):
+        model, legacy = rep[2 * i], rep[2 * i + 1]
+        ctx.traces += 1
+        if impl == model:
+            continue
+        if impl == legacy and is_plain_path(loc):
+            ctx.count("g2b:legacy-behaviour:non-url-location-drops-ref")  # reported by the oracle
+        else:
+            ctx.mismatch(case, impl, model, line="g2b " + a)
     # helper functions of the model, directly
     B = Batch(ctx)
     for _ in range(ctx.pick(800, 8000)):
@@ -1053,7 +1072,7 @@ def sec_parent(ctx, I):
                 if b":" not in url and merge == eff(I, br_, rf) and o["full_ok"] and o["full"] == u:
                     # stored correctly as a relative path + merge ref; git_url_to_bzr_url returns a
                     # location that is neither a URL nor rsync-style without appending the parameters
-                    fam = "parent-local-path-drops-ref"
+                    fam = "non-url-location-drops-ref"
                 ctx.violation(dict(kind="parent-file", name=js(name), branch=js(br_), ref=jb(rf)),
                               "branch %r: set_parent(%r) then get_parent() = %r (remote.origin.url = %r, merge = %r)"
                               % (name, full.replace(other, "<dir>"), str(o["full"]).replace(other, "<dir>"),
